@@ -3,7 +3,7 @@
 use crate::error::JsError;
 use crate::gc::Gc;
 use crate::interpreter::Interpreter;
-use crate::prelude::{String, ToString, Vec, format, math};
+use crate::prelude::{String, Vec, format, math};
 use crate::value::{ExoticObject, Guarded, JsObject, JsString, JsValue, PropertyKey};
 
 /// Initialize Number.prototype with toFixed, toString, toPrecision, toExponential, valueOf
@@ -161,12 +161,7 @@ pub fn number_parse_float(
     _this: JsValue,
     args: &[JsValue],
 ) -> Result<Guarded, JsError> {
-    let arg = args.first().cloned().unwrap_or(JsValue::Undefined);
-    let s = interp.to_js_string(&arg).to_string();
-
-    let trimmed = s.trim_start();
-    let result = trimmed.parse::<f64>().unwrap_or(f64::NAN);
-    Ok(Guarded::unguarded(JsValue::Number(result)))
+    super::global::global_parse_float(interp, JsValue::Undefined, args)
 }
 
 /// Number.parseInt - same as global parseInt
@@ -175,26 +170,7 @@ pub fn number_parse_int(
     _this: JsValue,
     args: &[JsValue],
 ) -> Result<Guarded, JsError> {
-    let arg = args.first().cloned().unwrap_or(JsValue::Undefined);
-    let s = interp.to_js_string(&arg).to_string();
-    let radix = args.get(1).map(|v| v.to_number() as i32).unwrap_or(10);
-
-    let trimmed = s.trim_start();
-
-    // Handle radix
-    let radix = if radix == 0 {
-        10
-    } else if !(2..=36).contains(&radix) {
-        return Ok(Guarded::unguarded(JsValue::Number(f64::NAN)));
-    } else {
-        radix
-    };
-
-    let result = i64::from_str_radix(trimmed, radix as u32)
-        .map(|n| n as f64)
-        .unwrap_or(f64::NAN);
-
-    Ok(Guarded::unguarded(JsValue::Number(result)))
+    super::global::global_parse_int(interp, JsValue::Undefined, args)
 }
 
 // Number.isNaN - stricter, no type coercion
@@ -388,7 +364,11 @@ pub fn number_to_string(
     args: &[JsValue],
 ) -> Result<Guarded, JsError> {
     let n = get_number_value(interp, &this)?;
-    let radix = args.first().map(|v| v.to_number() as i32).unwrap_or(10);
+    // An undefined radix is 10
+    let radix = match args.first() {
+        None | Some(JsValue::Undefined) => 10,
+        Some(v) => v.to_number() as i32,
+    };
 
     if !(2..=36).contains(&radix) {
         return Err(JsError::range_error(
